@@ -1,25 +1,29 @@
 --------------------------- MODULE TraceTunnelSrv ---------------------------
 (* Layer A binding of the data plane, server half: every step of the real       *)
-(* iodined's event loop in a simulated session (a ping or data query read, a    *)
-(* packet read from the tun device, a 20 ms sweep) must be a step of            *)
-(* Tunnel.tla's server functions (SrvPing / SrvData / SrvTun / Sweep) from the  *)
-(* same state, producing the same answers (id, sequence/fragment numbers, last   *)
-(* flag, payload length, suppression) and the same users[] projection            *)
-(* (reassembly position, outpacket position, re-send counter, queue length,      *)
-(* held and send-real-soon queries with their remembered duplicates).           *)
-(* Drift only - never a violation.  The first line of the trace is a Config      *)
-(* record (fragment size, lazy mode, compressed lengths of the offered packets). *)
+(* iodined's event loop in a simulated single-client session (a ping or data    *)
+(* query read, a packet read from the tun device, a 20 ms sweep) must be a step *)
+(* of Tunnel.tla's server functions (SrvPing / SrvData / SrvTun / Sweep) from   *)
+(* the same state, producing the same answers (id, sequence / fragment numbers, *)
+(* last flag, which bytes of which packet, suppression) and the same users[]    *)
+(* projection (reassembly position, outpacket position, re-send counter, queue  *)
+(* length, held and send-real-soon queries with their remembered duplicates),   *)
+(* and the same tun writes.  Drift only - never a violation.                    *)
+(* Per TLC run (environment): TT_FRAG, TT_LAZY, TT_LENS (JSON file with the     *)
+(* compressed lengths of all packets of the file's executions).                 *)
 EXTENDS Tunnel, TraceBase
 
-Cfg == TraceLog[1]
-TrUpLens == Cfg.uplens
-TrDnLens == Cfg.dnlens
-TrFrag == Cfg.fragsize
-TrLazy == Cfg.lazy
-\* packet p = 100000 * index (upstream) / 100000 * (100 + index) (downstream); unit k of its image is p + k
-TrUpPkt(i) == 100000 * i
-TrDnPkt(i) == 100000 * (100 + i)
-TrPLen(p) == IF p < 10000000 THEN TrUpLens[p \div 100000] ELSE TrDnLens[(p \div 100000) - 100]
+Lens == ndJsonDeserialize(IOEnv.TT_LENS)[1]
+TrUpLens == Lens.up
+TrDnLens == Lens.dn
+TrFrag == atoi(IOEnv.TT_FRAG)
+TrLazy == IOEnv.TT_LAZY = "1"
+\* upstream packet i = 70000 * i, downstream packet i = 70000 * (15000 + i); unit k of its image is p + k (k <= 65536)
+SP == 70000
+DB == 15000
+TrUpPkt(i) == SP * i
+TrDnPkt(i) == SP * (DB + i)
+TrPLen(p) == IF p < SP * DB THEN TrUpLens[p \div SP] ELSE TrDnLens[(p \div SP) - DB]
+UNKNOWN == 99999
 
 VARIABLE l
 tvars == <<vars, l>>
@@ -34,34 +38,45 @@ Units(m) == IF m.pkt = 0 THEN [k \in 1..m.len |-> 0]
 Msg(m) == [id |-> m.id, nm |-> m.nm, cs |-> m.cs, kind |-> m.kind, useq |-> m.useq, ufrag |-> m.ufrag,
            dseq |-> m.dseq, dfrag |-> m.dfrag, last |-> (m.last = 1), units |-> Units(m)]
 
-\* what the step emitted, as the trace logs it
-OutOf(s) == [i \in 1..Len(s.outbox) |->
-                [id |-> s.outbox[i].id, dseq |-> s.outbox[i].dseq, dfrag |-> s.outbox[i].dfrag,
-                 useq |-> s.outbox[i].useq, ufrag |-> s.outbox[i].ufrag,
-                 last |-> IF s.outbox[i].last THEN 1 ELSE 0, len |-> Len(s.outbox[i].units),
-                 x |-> IF s.outbox[i].illegal THEN 1 ELSE 0]]
+\* an emitted answer agrees with a logged one
+SameAns(a, r) ==
+    /\ a.id = r.id
+    /\ IF a.illegal THEN r.x = 1
+       ELSE /\ r.x = 0
+            /\ a.dseq = r.dseq /\ a.dfrag = r.dfrag /\ a.useq = r.useq /\ a.ufrag = r.ufrag
+            /\ (IF a.last THEN 1 ELSE 0) = r.last
+            /\ Len(a.units) = r.len
+            /\ (r.len > 0 /\ r.off # UNKNOWN) =>
+                  /\ r.pk = (a.units[1] \div SP) - DB
+                  /\ r.off = (a.units[1] % SP) - 1
+SameOut(s) == /\ Len(s.outbox) = Len(Ev.out)
+              /\ \A i \in 1..Len(s.outbox) : SameAns(s.outbox[i], Ev.out[i])
 Proj(s) == [iseq |-> s.iseq, ifrag |-> s.ifrag, ilen |-> Len(s.ibuf),
             oseq |-> s.oseq, ofrag |-> s.ofrag, olen |-> s.olen, ooff |-> s.ooff, osent |-> s.osent,
             resent |-> s.resent, outq |-> Len(s.outq),
             q |-> s.q.id, q2 |-> IF s.q.id = 0 THEN 0 ELSE s.q.id2,
-            qrs |-> s.qrs.id, qrs2 |-> IF s.qrs.id = 0 THEN 0 ELSE s.qrs.id2,
-            tunw |-> Len(s.tunw)]
+            qrs |-> s.qrs.id, qrs2 |-> IF s.qrs.id = 0 THEN 0 ELSE s.qrs.id2]
+TunW(s) == [i \in 1..Len(s.tunw) |-> s.tunw[i] \div SP]
 
 Step(s1) == LET s2 == Sweep(s1) IN
-            /\ OutOf(s2) = Ev.out
+            /\ SameOut(s2)
             /\ Proj(s2) = Ev.st
+            /\ TunW(s2) = Ev.tunw
             /\ S' = [s2 EXCEPT !.outbox = <<>>, !.tunw = <<>>]
             /\ Frozen
 
-TConfig == IsEvent("Config") /\ UNCHANGED vars
-TRecv == /\ IsEvent("Recv")
-         /\ LET m == Msg(Ev.m) IN
-            Step(IF m.kind = "ping" THEN SrvPing(Begin(S), m) ELSE SrvData(Begin(S), m))
-TTun == IsEvent("Tun") /\ Step(SrvTun(Begin(S), TrDnPkt(Ev.p)))
-TTick == IsEvent("Tick") /\ Step(Begin(S))
+\* one iteration of the server loop: q_sendrealsoon_new reset, the handlers that ran (the tun handler first, then the DNS
+\* handler), then the sweep
+Handle(s, h) == IF h.k = "Tun" THEN SrvTun(s, TrDnPkt(h.p))
+                ELSE LET m == Msg(h) IN IF m.kind = "ping" THEN SrvPing(s, m) ELSE SrvData(s, m)
+After[i \in 0..Len(Ev.hs)] == IF i = 0 THEN Begin(S) ELSE Handle(After[i - 1], Ev.hs[i])
+
+TStart == IsEvent("Start") /\ Proj(S) = Ev.st /\ UNCHANGED vars
+TIter == IsEvent("Iter") /\ Step(After[Len(Ev.hs)])
+TReset == IsEvent("Reset") /\ S' = SInit /\ Frozen
 
 TInit == Init /\ l = 1
-TNext == TConfig \/ TRecv \/ TTun \/ TTick
+TNext == TStart \/ TIter \/ TReset
 TraceSpec == TInit /\ [][TNext]_tvars
 TraceAccepted ==
     LET d == TLCGet("stats").diameter IN
